@@ -1,13 +1,13 @@
 CONSTANTS
   Senders = {"s1", "s2"}
-  Script <- ScriptA
-  Names = {"a", "b"}
-  MaxCliOps = 3
+  Script <- ScriptB
+  Names = {"a", "b", "c"}
+  MaxCliOps = 1000
   FaultKinds = {"garbage", "oversize", "trunc"}
   AllowZZ = TRUE
   AllowEarly = TRUE
   AnyName = TRUE
   KeepHist = FALSE
-INIT Init
-NEXT Next
-INVARIANTS TypeOK AtMostOnce ExactlyOnceAtEnd OwnResponse
+INIT TInit
+NEXT TNext
+INVARIANTS AtMostOnce ExactlyOnceAtEnd Accepted
